@@ -71,6 +71,10 @@ def check_config_passthrough(prop: str, res: Result, repo: Repo):
         res.ok(rule, {"site": bi.where, "why": "the given dict (a copy, minus the popped selector key) is passed on as it is"}, nontrivial="config")
 
 
+# (class, settings) pairs whose exchange leaves the indicator the same: MACD is "shorter EMA minus longer EMA" whichever way round they are given
+SYMMETRIC_SETTINGS = {("MACD", frozenset({"fast_period", "slow_period"}))}
+
+
 def check_config_stable(prop: str, res: Result, repo: Repo):
     """R-CONFIG: a validation hook (`_validate_fields`) may default a setting that was left None, swap two settings or coerce a type; it
     never replaces a value that was given (a clamp changes the indicator another indicator's `_initialise` asked for by value)"""
@@ -121,6 +125,10 @@ def check_config_stable(prop: str, res: Result, repo: Repo):
             n += 1
             vals = st.value.elts if isinstance(st.value, ast.Tuple) else [st.value]
             swap = len(tgts) >= 2 and all(isinstance(v, ast.Attribute) and ast.unparse(v) in {ast.unparse(t) for t in tgts} for v in vals)
+            # exchanging two settings is only harmless where the definition is symmetric in them (confirmed by reading, frozen here)
+            if swap and (ci.name, frozenset(t.attr for t in tgts)) not in SYMMETRIC_SETTINGS:
+                res.fail(rule, finding(prop, rule, m, st, f"{ci.name}._validate_fields exchanges the settings {sorted(t.attr for t in tgts)}: the definition of {ci.name} is not symmetric in them (each smoothing stage is seeded over its own length), so the instance computes another indicator than the one configured"))
+                continue
             ok = swap
             for t in tgts:
                 if ok:
